@@ -64,6 +64,11 @@ func pool(thorough bool) []cval {
 		{Src: "(true - 1)", Zero: true}, {Src: "(false * 7)", Zero: true}, {Src: "(IB.new(3) - 3)", Zero: true}, {Src: "(5.bear({}) - 5)", Zero: true}, {Src: "IB.new(0)", Zero: true},
 		{Src: "Float.bear.new(0.0)", Zero: true}, {Src: "(FBz.new(1.5) - 1.5)", Zero: true}, {Src: `Str.bear.new("")`, Zero: true}, {Src: `(Str.bear.new("a") * 0)`, Zero: true},
 		{Src: "Arr.bear.new([])", Zero: true}, {Src: "[1][1:]", Zero: true}, {Src: `"a"[1:]`, Zero: true}, {Src: "{a: 1}.del('a)", Zero: true}, {Src: "(1 - 1)", Zero: true}, {Src: "(0.5 - 0.5)", Zero: true},
+		// booleans and zero values that come out of built-ins rather than literals; iterators of built-in collections
+		{Src: "JSON.dec(`true`)", NonZero: true}, {Src: "JSON.dec(`false`)", Zero: true}, {Src: "JSON.dec(`[true, false]`)[0]", NonZero: true}, {Src: "JSON.dec(`{\"a\": false}`)['a]", Zero: true},
+		{Src: "JSON.dec(`0`)", Zero: true}, {Src: "JSON.dec(`\"\"`)", Zero: true}, {Src: "JSON.dec(`[]`)", Zero: true}, {Src: "JSON.dec(`{}`)", Zero: true}, {Src: "JSON.dec(`null`)", Zero: true}, {Src: "JSON.dec(`1.5`)", NonZero: true},
+		{Src: "(1 == 1)", NonZero: true}, {Src: "(1 == 2)", Zero: true}, {Src: "(!nil)", NonZero: true}, {Src: "[].empty?", NonZero: true}, {Src: "1.kindOf?(Str)", Zero: true}, {Src: `"true".decJSON`, NonZero: true},
+		{Src: "[1]._iter", NonZero: true}, {Src: `"a"._iter`, NonZero: true}, {Src: "(1:3)._iter", NonZero: true}, {Src: "{a: 1}._iter", NonZero: true}, {Src: "%{1: 2}._iter", NonZero: true}, {Src: "[]._iter", NonZero: true}, {Src: "<{|x| yield x}>.new(1)", NonZero: true},
 		{Src: "1.try"}, {Src: "nil.try"}, {Src: "1.try./(0)"}, {Src: "1.try./(0).err"}, {Src: `"nan".F`},
 	}
 	if thorough {
